@@ -827,6 +827,18 @@ class SourceFinder(object):
                 continue
             pixbeam = Beam(a, b, pa)
 
+            # the true peak can sit half a pixel (in both axes) from the
+            # brightest pixel: give the amplitude bound the head-room that
+            # the beam sampling needs
+            headroom = math.exp(
+                0.25 / (min(pixbeam.a, pixbeam.b) * FWHM2CC) ** 2)
+            if amp > 0:
+                amp_max = max(
+                    amp_max, amp * headroom + innerclip * rmsimg[xo, yo])
+            else:
+                amp_min = min(
+                    amp_min, amp * headroom - innerclip * rmsimg[xo, yo])
+
             # set a square limit based on the size of the pixbeam
             xo_lim = 0.5 * np.hypot(pixbeam.a, pixbeam.b)
             yo_lim = xo_lim
